@@ -64,7 +64,8 @@ Enabled(prod) ==
                                     "AggOdd", "First"}
       [] Fam = "md1"   -> prod \in {"Select", "Where", "Count", "Cmp", "MD"}
       [] Fam = "md"    -> prod \in {"Select", "Where", "SelectMany", "Count", "Cmp", "Add", "MD", "First"}
-      [] Fam = "all"   -> prod \notin {"OtherMeth", "KwOp", "AggOdd", "MD", "OutIdx", "AbsentKey"}
+      [] Fam = "comp"  -> prod \in {"Comp", "Select", "Count", "Sum", "Cmp", "Add", "First"}
+      [] Fam = "all"   -> prod \notin {"OtherMeth", "KwOp", "AggOdd", "MD", "OutIdx", "AbsentKey", "Comp"}
       [] OTHER -> FALSE
 
 (* ------------------------------------------------------------------ *)
@@ -105,6 +106,8 @@ Leaves(s, ns, ss) ==
       \cup (IF s = "SeqEvt" THEN {Name("ds")} ELSE {})
       \cup (IF s = "Int" THEN {IntC(1)} ELSE {})
       \cup (IF s = "Bool" /\ Enabled("True") THEN {BoolC(TRUE)} ELSE {})
+      \cup (IF s = "Bool" /\ Fam = "comp"
+            THEN {Cmp(">", f, IntC(1)) : f \in VarsOf("Int", ns, ss) \cup FieldRefs("Int", ns, ss)} ELSE {})
 
 Split2(r) == {<<i, r - i>> : i \in 0..r}
 Split3(r) == {<<q[1], q[2], r - q[1] - q[2]>> : q \in {w \in (0..r) \X (0..r) : w[1] + w[2] <= r}}
@@ -132,6 +135,16 @@ NonLeaf(h) ==
           OpProd("Where", s, Elem(s), "Bool", r, ns, ss) ELSE {}) \cup
       (IF s \in SeqSorts /\ Enabled("SelectMany") THEN
           UNION {OpProd("SelectMany", SeqOf(y), y, s, r, ns, ss) : y \in ElemSorts \ {"Int"}}
+       ELSE {}) \cup
+      (* ---- comprehensions: [elt for x in iter if c1 if c2] and generator expressions ---- *)
+      (IF s \in SeqSorts /\ Enabled("Comp") THEN
+          UNION {{Comp(kd, x, Hole(Elem(s), sp[1], Push(ns, x), Append(ss, SortT(y))), Hole(SeqOf(y), sp[2], ns, ss),
+                       CASE nifs = 0 -> <<>>
+                         [] nifs = 1 -> <<Hole("Bool", sp[3], Push(ns, x), Append(ss, SortT(y)))>>
+                         [] OTHER -> <<Hole("Bool", sp[3], Push(ns, x), Append(ss, SortT(y))),
+                                       Hole("Bool", 0, Push(ns, x), Append(ss, SortT(y)))>>) :
+                     sp \in Split3(r), x \in Binders, kd \in {"list", "gen"},
+                     nifs \in (IF r = 0 THEN {0} ELSE {0, 1, 2})} : y \in ElemSorts}
        ELSE {}) \cup
       (* ---- packaging ---- *)
       (IF s = "Pair" /\ Enabled("Pack") THEN
